@@ -7,6 +7,7 @@ import (
 	"strconv"
 
 	"github.com/vimeo/dials/ptrify"
+	"verifharness/internal/cfgdoc"
 	"verifharness/internal/coqfmt"
 )
 
@@ -26,16 +27,16 @@ func demo8() {
 		PT := ptrify.Pointerify(T, reflect.New(T).Elem())
 		bad := 0
 		d := genDoc(r, T, &bad)
-		if d.kind != dMap {
+		if d.Kind != dMap {
 			continue
 		}
 		for f := 0; f < 4; f++ {
-			sp = nil
+			cfgdoc.Sp = nil
 			canon := render(f, d)
 			v0, err0, p0 := decodeWith(false, f, canon, PT)
 			o0 := outcomeTerm(v0, err0, p0)
 			for k := 0; k < 4; k++ {
-				sp = coqfmt.NewRng(r.U64())
+				cfgdoc.Sp = coqfmt.NewRng(r.U64())
 				text := render(f, d)
 				v1, err1, p1 := decodeWith(false, f, text, PT)
 				if o1 := outcomeTerm(v1, err1, p1); o1 != o0 && shown[f] < 6 {
@@ -45,6 +46,6 @@ func demo8() {
 			}
 		}
 	}
-	sp = nil
+	cfgdoc.Sp = nil
 	fmt.Println("mismatches shown:", shown)
 }
